@@ -21,6 +21,9 @@ import (
 )
 
 func TestProp_C11(t *testing.T) {
+	if exhFailed.Load() {
+		t.Skip("the exhaustive sweep already reported a violation")
+	}
 	// the self check drives real traffic through two multiplexers: journal an equivalent case, so
 	// that a crash in there is attributed to a replayable case
 	ev.Get("C11").Journal(ev.Snapshot(C11Case{Kind: "mux", QLen: 8, IDs: []uint32{1},
